@@ -741,6 +741,87 @@ theorem mkNonStatio_ok {a : StatioArgs} {cart : Bool} {bt nt : Nat} {tmin tmax :
         subst h
         exact ⟨rfl, hg, mkTimes_ok _ _ _ _ _ _ hle ht⟩
 
+/-! ### RAR set-up: the whole pre-allocated store, and every batch of any epoch size -/
+
+theorem rarStart_spec (rar : Bool) (n : Nat) (nStart : Option Nat) :
+    (rar = false → rarStart rar n nStart = .ok n) ∧
+    (rar = true → nStart = none → rarStart rar n nStart = .error .valueError) ∧
+    (rar = true → ∀ s, nStart = some s → rarStart rar n nStart = .ok s) := by
+  refine ⟨fun h => by simp [rarStart, h], fun h h2 => by simp [rarStart, h, h2],
+    fun h s h2 => by simp [rarStart, h, h2]⟩
+
+/-- With or without RAR the constructed generator is the same one: **all `n` pre-allocated points**
+    (active or not) are built by `mkStatio`, so `statio_stores` applies to the whole store; only the
+    epoch size of the cursor changes. -/
+theorem mkStatioRar_ok {a : StatioArgs} {rar : Bool} {nStart : Option Nat} {o : StatioOracle}
+    {s : Statio} {nEff : Nat} (h : mkStatioRar a rar nStart o = .ok (s, nEff)) :
+    mkStatio a o = .ok s ∧ rarStart rar a.n nStart = .ok nEff := by
+  unfold mkStatioRar at h
+  split at h
+  · cases h
+  · cases hr : rarStart rar a.n nStart with
+    | error e => simp [hr] at h
+    | ok k =>
+      cases hs : mkStatio a o with
+      | error e => simp [hr, hs] at h
+      | ok s' =>
+        simp [hr, hs] at h
+        obtain ⟨rfl, rfl⟩ := h
+        exact ⟨rfl, rfl⟩
+
+theorem mkTimesRar_ok {method : String} {tmin tmax : Rat} {nt : Nat} {rar : Bool} {ntStart : Option Nat}
+    {o times : List Rat} {ntEff : Nat} (h : mkTimesRar method tmin tmax nt rar ntStart o = .ok (times, ntEff)) :
+    mkTimes method tmin tmax nt o = .ok times ∧ rarStart rar nt ntStart = .ok ntEff := by
+  unfold mkTimesRar at h
+  cases hr : rarStart rar nt ntStart with
+  | error e => simp [hr] at h
+  | ok k =>
+    cases hs : mkTimes method tmin tmax nt o with
+    | error e => simp [hr, hs] at h
+    | ok t' =>
+      simp [hr, hs] at h
+      obtain ⟨rfl, rfl⟩ := h
+      exact ⟨rfl, rfl⟩
+
+/-- **Every batch of every history, for ANY epoch size `nEff`** (in particular RAR's
+    `n_start + k·selected`, whether or not the batch size divides it, so including the fixed-size
+    slice that runs past the active points): `b` points, all of the domain — because the whole
+    pre-allocated store is in the domain and reshuffles permute it. -/
+theorem batches_any_epoch_size (P : α → Prop) (nEff : Nat) (store0 : List α) (b : Nat)
+    (hb : b ≤ store0.length) (h0 : ∀ p ∈ store0, P p) (os : List (List α))
+    (hos : ∀ o ∈ os, o.Perm store0) :
+    ∀ bt ∈ (run nEff (init store0 b) os).2, bt.length = b ∧ ∀ p ∈ bt, P p := by
+  intro bt hbt
+  constructor
+  · exact run_batches_length nEff store0.length (init store0 b) rfl hb os
+      (fun o ho => (hos o ho).length_eq) bt hbt
+  · exact run_batches_all P nEff (init store0 b) h0 os
+      (fun o ho p hp => h0 p ((hos o ho).subset hp)) bt hbt
+
+/-- The stationary generator built WITH the RAR set-up: the whole store is in the box and so is
+    every interior batch of every history, for its epoch size `n_eff = n_start`. -/
+theorem statio_rar_history {a : StatioArgs} {rar : Bool} {nStart : Option Nat} {o : StatioOracle}
+    {s : Statio} {nEff : Nat} (h : mkStatioRar a rar nStart o = .ok (s, nEff))
+    (hle : ∀ i, i < a.dim → a.mins.getD i 0 ≤ a.maxs.getD i 0) (hb : a.b ≤ a.n)
+    (os : List (List (List Rat))) (hos : ∀ o ∈ os, o.Perm s.omega) :
+    s.omega.length = a.n ∧ (∀ p ∈ s.omega, inBox a.mins a.maxs p = true) ∧
+    ∀ bt ∈ (run nEff (init s.omega a.b) os).2,
+      bt.length = a.b ∧ ∀ p ∈ bt, inBox a.mins a.maxs p = true := by
+  have hs := statio_stores (mkStatioRar_ok h).1 hle
+  exact ⟨hs.1, hs.2.1,
+    batches_any_epoch_size _ nEff s.omega a.b (by rw [hs.1]; exact hb) hs.2.1 os hos⟩
+
+/-- … and the ODE generator built with the RAR set-up. -/
+theorem ode_rar_history {method : String} {tmin tmax : Rat} {nt bt : Nat} {rar : Bool}
+    {ntStart : Option Nat} {o times : List Rat} {ntEff : Nat} (hle : tmin ≤ tmax)
+    (h : mkTimesRar method tmin tmax nt rar ntStart o = .ok (times, ntEff)) (hb : bt ≤ nt)
+    (os : List (List Rat)) (hos : ∀ o ∈ os, o.Perm times) :
+    times.length = nt ∧ (∀ t ∈ times, inIcc tmin tmax t = true) ∧
+    ∀ batch ∈ (run ntEff (init times bt) os).2,
+      batch.length = bt ∧ ∀ t ∈ batch, inIcc tmin tmax t = true := by
+  have hk := mkTimes_ok method tmin tmax nt o times hle (mkTimesRar_ok h).1
+  exact ⟨hk.1, hk.2, batches_any_epoch_size _ ntEff times bt (by rw [hk.1]; exact hb) hk.2 os hos⟩
+
 /-! ### the model satisfies `Holds.C08` (interior / time clauses) -/
 
 open Jinns.Holds in
@@ -799,6 +880,8 @@ theorem ode_history_holds (method : String) (tmin tmax : Rat) (nt bt : Nat) (o t
 example : roundSqrt 9 = 3 ∧ roundSqrt 7 = 3 ∧ roundSqrt 6 = 2 ∧ roundSqrt 5 = 2 := by decide
 example : (List.range 4).map (fun p => (meshDigit 2 2 (xySwap 0) p, meshDigit 2 2 (xySwap 1) p))
     = [(0, 0), (1, 0), (0, 1), (1, 1)] := by decide
+example : rarStart true 8 (some 3) = .ok 3 ∧ rarStart true 8 none = .error .valueError ∧
+    rarStart false 8 (some 3) = .ok 8 := by decide
 example : borderParams 2 (some 8) (some 2) = .ok (some 8, some 2) := by decide
 example : borderParams 2 (some 6) (some 1) = .error .valueError := by decide
 example : borderParams 2 (some 8) (some 3) = .error .valueError := by decide
